@@ -993,6 +993,17 @@ func minU(a, b uint64) uint64 {
 	return b
 }
 
+// runCase: every fifth case is a database-level sync case, every tenth a synced-store case
+func runCase(r *vk.Run, i int) error {
+	switch {
+	case i%5 == 4:
+		return runSyncCase(r, i)
+	case i%10 == 7:
+		return runSyncedCase(r, i)
+	}
+	return runStoreCase(r, i)
+}
+
 // Gen: n is the number of cases (schedules); a fifth of them are database-level sync cases
 func Gen(r *vk.Run, n int) error {
 	useTmpfs()
@@ -1003,11 +1014,7 @@ func Gen(r *vk.Run, n int) error {
 	t0 := time.Now()
 	for i := 0; i < n; i++ {
 		var err error
-		if i%5 == 4 {
-			err = runSyncCase(r, i)
-		} else {
-			err = runStoreCase(r, i)
-		}
+		err = runCase(r, i)
 		if err != nil {
 			return fmt.Errorf("case %d: %w", i, err)
 		}
@@ -1045,17 +1052,9 @@ func Replay(r *vk.Run, c map[string]any) error {
 		if i == int(idx) {
 			// same generator state, recorded into the real run
 			r.Rng = rr.Rng
-			if i%5 == 4 {
-				return runSyncCase(r, i)
-			}
-			return runStoreCase(r, i)
+			return runCase(r, i)
 		}
-		if i%5 == 4 {
-			err = runSyncCase(rr, i)
-		} else {
-			err = runStoreCase(rr, i)
-		}
-		if err != nil {
+		if err = runCase(rr, i); err != nil {
 			return err
 		}
 	}
